@@ -9,6 +9,7 @@ import EinoV.Model.Engine
 import EinoV.Proofs.C02
 import EinoV.Proofs.C02Run
 import EinoV.Proofs.C02Compile
+import EinoV.Proofs.C02CompileWF
 import EinoV.Proofs.C02Eager
 import EinoV.Proofs.C02Just
 import EinoV.Proofs.C02Complete
@@ -559,5 +560,51 @@ def wOrphan : WorkflowDef Nat :=
 theorem node_without_predecessor_never_runs :
     (runEager natOps (compileW natOps wOrphan) (fun _ => 0) 0).submitted = [("a", 0), ("b", 1)] ∧
     okv (runEager natOps (compileW natOps wOrphan) (fun _ => 0) 0) = some 2 := by decide
+
+/-! ### every graph definition Compile accepts: the hypotheses of the run-level theorems discharged -/
+
+open EinoV.Engine.DagRun in
+/-- **well_formed_graph_compiles_to_well_formed_runner.** `GraphDefWF g` states what `AddNode` /
+    `AddEdge` / `AddBranch` / `Compile` accept in all-predecessor mode: distinct node keys other
+    than START and END, every edge target and branch end an existing node or END, and an acyclic
+    edge / branch-end relation.  The compiled runner of *every* such definition satisfies `DagWF`,
+    `DagWF2` and `DagWF3`, i.e. all the hypotheses of the run-level theorems of C02 and C03 — they
+    are not an assumption about compiled graphs but a consequence of how `compile` builds the
+    predecessor maps and the successor lists. -/
+theorem well_formed_graph_compiles_to_well_formed_runner {V} (slack : Nat) (g : GraphDef V)
+    (w : GraphDefWF g) : DagWF (compile slack g) ∧ DagWF2 (compile slack g) ∧ DagWF3 (compile slack g) :=
+  compile_wf slack g w
+
+open EinoV.Engine.DagRun in
+/-- **compiled_graph_at_most_once.** For every well-formed acyclic graph definition, every fair
+    completion schedule and every input: no node of the compiled graph starts twice. -/
+theorem compiled_graph_at_most_once {V} (ops : ValOps V) (slack : Nat) (g : GraphDef V) (w : GraphDefWF g)
+    (sched : Sched V) (hf : sched.Fair) (x : V) (k : Key) :
+    ((runS ops (compile slack g) sched x).trace.flatten.map (·.1)).count k ≤ 1 :=
+  run_at_most_once ops _ (compile_wf slack g w).1 sched hf x k
+
+open EinoV.Engine.DagRun in
+/-- **compiled_graph_runs_exactly_the_enabled_nodes.** … and the tasks of every step are justified
+    by the completions of the older steps, every enabled node is among them, and each runs on
+    exactly the outputs of the data predecessors that routed to it. -/
+theorem compiled_graph_runs_exactly_the_enabled_nodes {V} (ops : ValOps V) (slack : Nat) (g : GraphDef V)
+    (w : GraphDefWF g) (sched : Sched V) (hf : sched.Fair) (x : V) :
+    JustTr ops (compile slack g) x (runS ops (compile slack g) sched x).trace.reverse ∧
+    CompTr (compile slack g) x (runS ops (compile slack g) sched x).trace.reverse ∧
+    ExactTr ops (compile slack g) x (runS ops (compile slack g) sched x).trace.reverse :=
+  have h := compile_wf slack g w
+  ⟨(run_justified ops _ h.1 sched hf x).1, run_complete ops _ h.1 h.2.1 sched hf x,
+   run_exact ops _ h.1 h.2.1 sched hf x⟩
+
+/-- non-vacuity: the diamond with a three-way branch is such a definition -/
+example : EinoV.Engine.DagRun.GraphDefWF gDiamond where
+  dag := rfl
+  keys := by decide
+  noStart := by decide
+  noEnd := by decide
+  edgeTo := by decide
+  brTo := by decide
+  acyclic := ⟨fun k => if k = START then 0 else if k = "a" then 1 else if k = "b" then 2
+      else if k = "c" then 2 else if k = "d" then 3 else 4, by decide, by decide⟩
 
 end EinoV.C02
